@@ -3,7 +3,7 @@
 # which check catches it?  named property first, then the others.  Private worktree of /verif + private copy of /repo.
 set -u
 sh=$1; n=$2; out=$3; glob=$4
-WT=/tmp/wt_seedann$sh; RP=/tmp/repo_seedann$sh
+WT=/tmp/wt_seedann${TAG:-}$sh; RP=/tmp/repo_seedann${TAG:-}$sh
 [ -d $WT ] || git -C /verif worktree add -f --detach $WT HEAD >/dev/null 2>&1
 git -C $WT checkout -q -f --detach $(git -C /verif rev-parse HEAD)
 rm -rf $RP; git clone -q /repo $RP
